@@ -302,7 +302,7 @@ def assess(obs, model, judge, model_ok=True):
         viols.append(('C08:thread-exception:' + ','.join(sorted(set(res['errors'].values()))),
                       f'exception escaped a thread: {res["errors"]}'))
     if res['deadlock']:
-        viols.append(('C08:deadlock', f'all threads blocked; still alive: {res["alive"]}; blocked on {obs["blocked"][-3:]}'))
+        viols.append(('C08:deadlock', f'all threads blocked (deadlock); last lock waits: {obs["blocked"][-3:]}'))
     if 'driver_error' in judge:
         return viols, {'model': {'judge': judge}, 'impl': ev[:8]}
     for clause in ('silent', 'snapshot', 'noloss'):
